@@ -215,24 +215,23 @@ Outcome(x, kind, dev) == IF x.flavour = "static" THEN StaticOutcome(x, kind, dev
 ExecFields(x, doc) == IF x.op = "subscription" THEN DirectFields(doc) ELSE RootFields(x, doc)
 \* response keys the substituted EmptyMutation root collects: a fragment on the real mutation type does not apply to it
 EmptyRootKeys(x, doc) == LET g == Collect(CtxOf(x, doc), "EmptyMutation", doc.ops[1].sels, 1, <<>>, {}).g IN {g[i].key : i \in 1..Len(g)}
-Outcomes(x, doc, dev) == LET fs == ExecFields(x, doc) IN
-  [i \in 1..Len(fs) |->
-     LET kind == KindOfName(x.op, fs[i].name)
+\* ef = ExecFields(x, doc), passed in so that the field collection is evaluated once per case
+Outcomes(x, doc, ef, dev) ==
+  [i \in 1..Len(ef) |->
+     LET kind == KindOfName(x.op, ef[i].name)
          base == Outcome(x, kind, dev)
-     IN [key |-> fs[i].key, kind |-> kind,
-         out |-> IF base = "typenameEmptyMutation" /\ fs[i].key \notin EmptyRootKeys(x, doc) THEN "skip" ELSE base]]
+     IN [key |-> ef[i].key, kind |-> kind,
+         out |-> IF base = "typenameEmptyMutation" /\ ef[i].key \notin EmptyRootKeys(x, doc) THEN "skip" ELSE base]]
 
 \* Upper bounds used to decide whether an observation is explained by a set of deviations:
 MayServeO(o) == {o[i].key : i \in {j \in 1..Len(o) : o[j].out = "meta"}}
 MayInvokeO(x, o) == UNION {ResolversOf(x.op, o[i].kind) : i \in {j \in 1..Len(o) : o[j].out = "resolve"}}
-ModelMayServe(x, doc, dev) == MayServeO(Outcomes(x, doc, dev))
-ModelMayInvoke(x, doc, dev) == MayInvokeO(x, Outcomes(x, doc, dev))
 
 \* Exact prediction (drift run): nothing happens when validation rejects the request; otherwise every root
 \* field is treated on its own (a refused static field is answered with null, Ok(None) in resolve_field).
 RejectedO(o) == \E i \in 1..Len(o) : o[i].out = "invalid"
-ModelInvokes(x, doc, dev) == LET o == Outcomes(x, doc, dev) IN IF RejectedO(o) THEN {} ELSE MayInvokeO(x, o)
-ModelServes(x, doc, dev) == LET o == Outcomes(x, doc, dev) IN IF RejectedO(o) THEN {} ELSE MayServeO(o)
+InvokesO(x, o) == IF RejectedO(o) THEN {} ELSE MayInvokeO(x, o)
+ServesO(o) == IF RejectedO(o) THEN {} ELSE MayServeO(o)
 
 ----------------------------------------------------------------------------
 (* The property over model outcomes (mode M) *)
@@ -243,19 +242,19 @@ PropTypenameO(x, o)  == \A i \in 1..Len(o) : (o[i].kind = "__typename" /\ x.op #
 PropO(x, o) == PropMetadataO(x, o) /\ PropResolversO(x, o) /\ PropTypenameO(x, o)
 
 \* Trigger predicates: the inputs on which a deviation can show.
-HasKindExec(x, doc, k) == LET fs == ExecFields(x, doc) IN \E i \in 1..Len(fs) : KindOfName(x.op, fs[i].name) = k
-Trigger(d, x, doc) ==
+HasKindExec(x, ef, k) == \E i \in 1..Len(ef) : KindOfName(x.op, ef[i].name) = k
+Trigger(d, x, ef) ==
   CASE d = "DevStaticServiceIgnoresDisabled" ->
-         x.flavour = "static" /\ x.op = "query" /\ HasKindExec(x, doc, "_service")
+         x.flavour = "static" /\ x.op = "query" /\ HasKindExec(x, ef, "_service")
          /\ ~MetadataAllowed(x.s, x.r) /\ ResolversAllowed(x.s, x.r)
     [] d = "DevDynSubscriptionIgnoresOnly" ->
          x.flavour = "dynamic" /\ x.op = "subscription" /\ ~ResolversAllowed(x.s, x.r)
-         /\ (HasKindExec(x, doc, "ordinary") \/ HasKindExec(x, doc, "nested"))
+         /\ (HasKindExec(x, ef, "ordinary") \/ HasKindExec(x, ef, "nested"))
     [] d = "DevDynEntitiesIgnoresOnly" ->
-         x.flavour = "dynamic" /\ x.op = "query" /\ HasKindExec(x, doc, "_entities")
+         x.flavour = "dynamic" /\ x.op = "query" /\ HasKindExec(x, ef, "_entities")
          /\ ~ResolversAllowed(x.s, x.r) /\ MetadataAllowed(x.s, x.r)
     [] d = "DevStaticEmptyMutationTypename" ->
-         x.flavour = "static" /\ x.op = "mutation" /\ HasKindExec(x, doc, "__typename") /\ ~ResolversAllowed(x.s, x.r)
+         x.flavour = "static" /\ x.op = "mutation" /\ HasKindExec(x, ef, "__typename") /\ ~ResolversAllowed(x.s, x.r)
 
 \* mode M invariants (evaluated on every case of the space)
 \* the table itself: both predicates are symmetric; Disabled / IntrospectionOnly in either place is enough;
@@ -271,16 +270,17 @@ ModelChecked ==
     LET doc == DocOf(c)
         fs == RootFields(c, doc)
         ks == KindSeq(c)
-        ideal == Outcomes(c, doc, {})
+        ef == ExecFields(c, doc)
+        ideal == Outcomes(c, doc, ef, {})
     IN \* the document generator and the reference field collection agree: the root fields are the chosen kinds, in order
        /\ Len(fs) = Len(ks)
        /\ \A i \in 1..Len(ks) : KindOfName(c.op, fs[i].name) = ks[i] /\ (c.alias => fs[i].key = "a" \o ToString(i))
        \* the ideal implementation model satisfies the table
        /\ PropO(c, ideal)
        \* every deviation changes the model exactly on its trigger predicate and violates the table there
-       /\ \A d \in Devs : LET o == Outcomes(c, doc, {d}) IN
-            /\ (o # ideal) <=> Trigger(d, c, doc)
-            /\ Trigger(d, c, doc) => ~PropO(c, o)
+       /\ \A d \in Devs : LET o == Outcomes(c, doc, ef, {d}) IN
+            /\ (o # ideal) <=> Trigger(d, c, ef)
+            /\ Trigger(d, c, ef) => ~PropO(c, o)
 
 Init == c \in Seeds
 Next == ~IsCase(c) /\ c' \in CasesOf(c)
